@@ -36,6 +36,8 @@ Qed.
 Variable leaf_apply : nat -> Z -> vec -> vec.
 Hypothesis leaf_ext : forall l m (x y : vec), (forall i, x i = y i) -> forall i, leaf_apply l m x i = leaf_apply l m y i.
 Hypothesis leaf_homog : forall l m (x : vec) c i, leaf_apply l m (fun j => x j * c) i = leaf_apply l m x i * c.
+(* the reserved leaf is NullOperator: the zero map *)
+Hypothesis leaf_null : forall m (x : vec) i, leaf_apply null_id m x i = 0.
 Notation apply := (apply A leaf_apply).
 
 (* ---- modes ---- *)
@@ -466,10 +468,10 @@ Proof.
   destruct a; cbn [isIdentity]; try discriminate. intros H. cbn [Model.apply]. unfold apply_scal. rewrite H. reflexivity.
 Qed.
 
-Lemma chain_general_sound k : kvalid k -> forall l, Forall wf l ->
-  Forall wf (chain_general A l) /\ forall x, peq (comp (chain_general A l) k x) (comp l k x).
+Lemma chain_nonull_sound k : kvalid k -> forall l, Forall wf l ->
+  Forall wf (chain_nonull A l) /\ forall x, peq (comp (chain_nonull A l) k x) (comp l k x).
 Proof.
-  intros Hk l Hw. unfold chain_general.
+  intros Hk l Hw. unfold chain_nonull.
   { cbv zeta.
     assert (Hw1 : Forall wf (unpack_chain A l)).
     { clear -Hw. induction Hw as [|a t Ha Ht IH]; [constructor|].
@@ -520,6 +522,62 @@ Proof.
     destruct H5 as [Hw4 H5].
     destruct (combine_prod_sound k Hk ops4 [] Hw4 (Forall_nil _)) as [G1 G2].
     split; [assumption|]. intros x i. rewrite G2. cbn [rev app]. apply H5. }
+Qed.
+
+(* ---- NullOperator: a chain containing one is the zero map, in every mode ---- *)
+Lemma apply_zero o m (x : vec) : (forall j, x j = 0) -> forall i, apply o m x i = 0.
+Proof.
+  intros Hx i. transitivity (apply o m (vscale x 0) i).
+  - apply apply_ext. intros j. unfold vscale. rewrite Hx. ring.
+  - rewrite (apply_homog o). ring.
+Qed.
+
+Lemma is_null_spec o : is_null A o = true -> o = null_op A.
+Proof.
+  destruct o; cbn [is_null]; try discriminate. intros H. apply andb_true_iff in H as [H1 H2].
+  apply Nat.eqb_eq in H1. apply Z.eqb_eq in H2. subst. reflexivity.
+Qed.
+
+Lemma apply_null m x i : apply (null_op A) m x i = 0.
+Proof. unfold null_op. cbn [Model.apply]. apply leaf_null. Qed.
+
+Lemma wf_null : wf (null_op A).
+Proof. unfold null_op. cbn [wf]. vm_compute. split; [discriminate|reflexivity]. Qed.
+
+Lemma comp_fwd_null l m : existsb (is_null A) l = true -> forall x i, comp_fwd l m x i = 0.
+Proof.
+  induction l as [|a t IH]; cbn [existsb]; [discriminate|]. intros H x i. cbn [comp_fwd].
+  destruct (is_null A a) eqn:Ea.
+  - rewrite (is_null_spec a Ea). apply apply_null.
+  - cbn [orb] in H. apply apply_zero. intros j. apply IH. exact H.
+Qed.
+
+Lemma comp_bwd_zero l m : forall x, (forall j, x j = 0) -> forall i, comp_bwd l m x i = 0.
+Proof.
+  induction l as [|a t IH]; intros x Hx i; cbn [comp_bwd]; [apply Hx|].
+  apply IH. intros j. apply apply_zero. exact Hx.
+Qed.
+
+Lemma comp_bwd_null l m : existsb (is_null A) l = true -> forall x i, comp_bwd l m x i = 0.
+Proof.
+  induction l as [|a t IH]; cbn [existsb]; [discriminate|]. intros H x i. cbn [comp_bwd].
+  destruct (is_null A a) eqn:Ea.
+  - apply comp_bwd_zero. intros j. rewrite (is_null_spec a Ea). apply apply_null.
+  - cbn [orb] in H. apply IH. exact H.
+Qed.
+
+Lemma comp_null l k : existsb (is_null A) l = true -> forall x i, comp l k x i = 0.
+Proof.
+  intros H x i. unfold comp. destruct (backwards (mode_of k)); [apply comp_bwd_null|apply comp_fwd_null]; exact H.
+Qed.
+
+Lemma chain_general_sound k : kvalid k -> forall l, Forall wf l ->
+  Forall wf (chain_general A l) /\ forall x, peq (comp (chain_general A l) k x) (comp l k x).
+Proof.
+  intros Hk l Hw. unfold chain_general. destruct (existsb (is_null A) (unpack_chain A l)) eqn:E.
+  - split; [constructor; [apply wf_null|constructor]|]. intros x i.
+    rewrite comp_single, apply_null. symmetry. rewrite <- (unpack_chain_sound l k x i). apply comp_null. exact E.
+  - apply chain_nonull_sound; assumption.
 Qed.
 
 Lemma chain_simplify_sound k : kvalid k -> forall l, Forall wf l ->
@@ -861,9 +919,9 @@ Proof.
     rewrite IH. reflexivity.
 Qed.
 
-Lemma allcap_general l k : allcap (chain_general A l) k = allcap l k.
+Lemma allcap_nonull l k : allcap (chain_nonull A l) k = allcap l k.
 Proof.
-  unfold chain_general.
+  unfold chain_nonull.
   destruct (collect_chain_scal A (unpack_chain A l) 1) as [fct ops2] eqn:E1.
   pose proof (allcap_collect _ _ _ _ k E1) as H1. rewrite allcap_unpack in H1.
   assert (Abs : exists fct' ops3,
@@ -885,33 +943,74 @@ Qed.
 Lemma isIdentity_capk a k : isIdentity A a = true -> capk a k = true.
 Proof. destruct a; cbn [isIdentity]; try discriminate. reflexivity. Qed.
 
-Lemma allcap_simplify l k : allcap (chain_simplify A l) k = allcap l k.
+(* With a NullOperator in the (unpacked) list the chain collapses to a fresh NullOperator, which
+   advertises TIMES|ADJOINT_TIMES whatever the other operands provide: the capability of make(ops)
+   then CONTAINS the conjunction over ops; without one it is exactly the conjunction. *)
+Lemma allcap_null l k : existsb (is_null A) l = true -> allcap l k = true -> capk (null_op A) k = true.
 Proof.
-  destruct l as [|a [|b [|c t]]]; cbn [chain_simplify]; try apply allcap_general; try reflexivity.
+  intros E H. apply existsb_exists in E as [a [Ia Na]]. unfold allcap in H.
+  rewrite forallb_forall in H. rewrite <- (is_null_spec a Na). apply H. exact Ia.
+Qed.
+
+Lemma allcap_general_ge l k : allcap l k = true -> allcap (chain_general A l) k = true.
+Proof.
+  intros H. unfold chain_general. destruct (existsb (is_null A) (unpack_chain A l)) eqn:E.
+  - cbn [allcap forallb]. rewrite andb_true_r. apply (allcap_null _ k E). rewrite allcap_unpack. exact H.
+  - rewrite allcap_nonull. exact H.
+Qed.
+
+Lemma allcap_general_eq l k :
+  existsb (is_null A) (unpack_chain A l) = false -> allcap (chain_general A l) k = allcap l k.
+Proof. intros E. unfold chain_general. rewrite E. apply allcap_nonull. Qed.
+
+Lemma allcap_simplify_ge l k : allcap l k = true -> allcap (chain_simplify A l) k = true.
+Proof.
+  intros H. destruct l as [|a [|b [|c t]]]; cbn [chain_simplify];
+    try (apply allcap_general_ge; exact H); try exact H.
+  destruct (isIdentity A a) eqn:Ia.
+  - cbn [allcap forallb] in H |- *. apply andb_true_iff in H as [_ H]. exact H.
+  - destruct (isIdentity A b) eqn:Ib.
+    + cbn [allcap forallb] in H |- *. apply andb_true_iff in H as [H _]. rewrite H. reflexivity.
+    + apply allcap_general_ge. exact H.
+Qed.
+
+Lemma allcap_simplify_eq l k :
+  existsb (is_null A) (unpack_chain A l) = false -> allcap (chain_simplify A l) k = allcap l k.
+Proof.
+  intros E. destruct l as [|a [|b [|c t]]]; cbn [chain_simplify];
+    try (apply allcap_general_eq; exact E); try reflexivity.
   destruct (isIdentity A a) eqn:Ia.
   - cbn [allcap forallb]. rewrite (isIdentity_capk a k Ia). reflexivity.
   - destruct (isIdentity A b) eqn:Ib.
     + cbn [allcap forallb]. rewrite (isIdentity_capk b k Ib). reflexivity.
-    + apply allcap_general.
+    + apply allcap_general_eq. exact E.
 Qed.
 
-Lemma capk_mk_chain l k : capk (mk_chain A l) k = allcap l k.
+Lemma capk_of_simplified l k : capk (mk_chain A l) k = allcap (chain_simplify A l) k.
 Proof.
-  rewrite <- allcap_simplify. unfold mk_chain. destruct (chain_simplify A l) as [|o [|o2 t]].
+  unfold mk_chain. destruct (chain_simplify A l) as [|o [|o2 t]].
   - reflexivity.
   - cbn [allcap forallb]. rewrite andb_true_r. reflexivity.
   - apply capk_Chain.
 Qed.
 
-Lemma capk_matmul a b k : capk (matmul A a b) k = capk a k && capk b k.
+Lemma capk_mk_chain_ge l k : allcap l k = true -> capk (mk_chain A l) k = true.
+Proof. intros H. rewrite capk_of_simplified. apply allcap_simplify_ge. exact H. Qed.
+
+Lemma capk_mk_chain_eq l k :
+  existsb (is_null A) (unpack_chain A l) = false -> capk (mk_chain A l) k = allcap l k.
+Proof. intros E. rewrite capk_of_simplified. apply allcap_simplify_eq. exact E. Qed.
+
+Lemma capk_matmul a b k : capk a k = true -> capk b k = true -> capk (matmul A a b) k = true.
 Proof.
-  unfold matmul. destruct (isIdentity A b) eqn:Ib.
-  - rewrite (isIdentity_capk b k Ib), andb_true_r. reflexivity.
-  - rewrite capk_mk_chain. cbn [allcap forallb]. rewrite andb_true_r. reflexivity.
+  intros Ha Hb. unfold matmul. destruct (isIdentity A b); [exact Ha|].
+  apply capk_mk_chain_ge. cbn [allcap forallb]. rewrite Ha, Hb. reflexivity.
 Qed.
 
-Lemma capk_scale c o k : capk (scale A c o) k = capk o k.
-Proof. unfold scale. destruct (eqb A c 1); [reflexivity|]. rewrite capk_matmul. reflexivity. Qed.
+Lemma capk_scale c o k : capk o k = true -> capk (scale A c o) k = true.
+Proof.
+  intros H. unfold scale. destruct (eqb A c 1); [exact H|]. apply capk_matmul; [reflexivity|exact H].
+Qed.
 
 (* sums: in the forward/adjoint modes make(ops) advertises at least the conjunction *)
 Lemma allcaps_map_sign (l : list (op * bool)) ng k :
@@ -998,13 +1097,14 @@ Proof.
   - exact H3.
 Qed.
 
-Lemma capk_mk_sum l k : kadjb k = true -> capk (mk_sum A l) k = allcaps l k.
+Lemma capk_mk_sum l k : kadjb k = true -> allcaps l k = true -> capk (mk_sum A l) k = true.
 Proof.
-  intros Hk. rewrite <- (allcaps_simplify l k Hk). unfold mk_sum.
+  intros Hk Hl. rewrite <- (allcaps_simplify l k Hk) in Hl. unfold mk_sum.
   destruct (sum_simplify A l) as [|[o ng] [|p t]].
   - rewrite capk_Sum, Hk. reflexivity.
-  - cbn [allcaps forallb fst]. rewrite andb_true_r. destruct ng; [apply capk_scale|reflexivity].
-  - rewrite capk_Sum, Hk. reflexivity.
+  - cbn [allcaps forallb fst] in Hl. rewrite andb_true_r in Hl.
+    destruct ng; [unfold negate; apply capk_scale; exact Hl|exact Hl].
+  - rewrite capk_Sum, Hk. exact Hl.
 Qed.
 
 (* ---- _flip_modes ---- *)
@@ -1060,7 +1160,7 @@ Definition flip_ok (o : op) : Prop :=
   wf o -> forall t k, kvalid t -> kvalid k ->
     wf (flip A t o) /\
     (forall x, peq (apply (flip A t o) (mode_of k) x) (apply o (mode_of (Z.lxor k t)) x)) /\
-    capk (flip A t o) k = capk o (Z.lxor k t).
+    (capk o (Z.lxor k t) = true -> capk (flip A t o) k = true).
 
 Lemma lxor_valid_assoc k t tr : Z.lxor k (Z.lxor t tr) = Z.lxor (Z.lxor k t) tr.
 Proof. symmetry. apply Z.lxor_assoc. Qed.
@@ -1070,13 +1170,13 @@ Proof.
   apply op_ind'; unfold flip_ok.
   - (* Scal *)
     intros c dt _ t k Ht Hk. destruct (Z.eqb t 0) eqn:E0.
-    { apply Z.eqb_eq in E0. subst t. rewrite flip_0, Z.lxor_0_r. repeat split; try assumption; try (intros x i; reflexivity). }
-    cbn [flip]. rewrite E0. fold (flipc t c). repeat split. intros x i.
+    { apply Z.eqb_eq in E0. subst t. rewrite flip_0, Z.lxor_0_r. repeat split; try assumption; try (intros x i; reflexivity); try (intros Hc; exact Hc). }
+    cbn [flip]. rewrite E0. fold (flipc t c). split; [exact I|]. split; [|reflexivity]. intros x i.
     rewrite !apply_Scal by (try apply kvalid_xor; assumption). rewrite scal_fct_flip by assumption. reflexivity.
   - (* Diag *)
     intros d tr dt Hw t k Ht Hk. cbn [wf] in Hw. destruct (Z.eqb t 0) eqn:E0.
-    { apply Z.eqb_eq in E0. subst t. rewrite flip_0, Z.lxor_0_r. repeat split; try assumption; try (intros x i; reflexivity). }
-    cbn [flip]. rewrite E0. split; [cbn [wf]; apply kvalid_xor; assumption|]. split; [|reflexivity].
+    { apply Z.eqb_eq in E0. subst t. rewrite flip_0, Z.lxor_0_r. repeat split; try assumption; try (intros x i; reflexivity); try (intros Hc; exact Hc). }
+    cbn [flip]. rewrite E0. split; [cbn [wf]; apply kvalid_xor; assumption|]. split; [|intros Hc; exact Hc].
     intros x i. cbn [Model.apply]. unfold apply_diag.
     rewrite !ilog_mode by (try apply kvalid_xor; assumption).
     replace (Z.lxor k (Z.lxor tr t)) with (Z.lxor (Z.lxor k t) tr); [reflexivity|].
@@ -1084,31 +1184,32 @@ Proof.
   - (* Leaf *)
     intros l cp Hw t k Ht Hk. destruct (Z.eqb t 0) eqn:E0.
     { apply Z.eqb_eq in E0. subst t. rewrite flip_0, Z.lxor_0_r.
-      split; [exact Hw|]. split; [intros x i; reflexivity|reflexivity]. }
-    cbn [flip]. rewrite E0. split; [split; assumption|]. split; [|reflexivity].
+      split; [exact Hw|]. split; [intros x i; reflexivity|intros Hc; exact Hc]. }
+    cbn [flip]. rewrite E0. split; [split; assumption|]. split; [|intros Hc; exact Hc].
     intros x i. cbn [Model.apply]. rewrite (ilog_mode k Hk), (modeTable_xor t k Ht Hk). reflexivity.
   - (* Sum *)
     intros l _ Hw t k Ht Hk. destruct (Z.eqb t 0) eqn:E0.
-    { apply Z.eqb_eq in E0. subst t. rewrite flip_0, Z.lxor_0_r. repeat split; try assumption; try (intros x i; reflexivity). }
-    cbn [flip]. rewrite E0. split; [split; assumption|]. split; [|reflexivity].
+    { apply Z.eqb_eq in E0. subst t. rewrite flip_0, Z.lxor_0_r. repeat split; try assumption; try (intros x i; reflexivity); try (intros Hc; exact Hc). }
+    cbn [flip]. rewrite E0. split; [split; assumption|]. split; [|intros Hc; exact Hc].
     intros x i. change (apply (Adapter (Sum l) t) (mode_of k) x i)
       with (apply (Sum l) (modeTable t (ilog (mode_of k))) x i).
     rewrite (ilog_mode k Hk), (modeTable_xor t k Ht Hk). reflexivity.
   - (* Chain *)
     intros l IHl Hw t k Ht Hk. destruct (Z.eqb t 0) eqn:E0.
-    { apply Z.eqb_eq in E0. subst t. rewrite flip_0, Z.lxor_0_r. repeat split; try assumption; try (intros x i; reflexivity). }
+    { apply Z.eqb_eq in E0. subst t. rewrite flip_0, Z.lxor_0_r. repeat split; try assumption; try (intros x i; reflexivity); try (intros Hc; exact Hc). }
     apply wf_Chain in Hw.
     assert (El : Forall (fun a => wf (flip A t a) /\
                    (forall x, peq (apply (flip A t a) (mode_of k) x) (apply a (mode_of (Z.lxor k t)) x)) /\
-                   capk (flip A t a) k = capk a (Z.lxor k t)) l).
+                   (capk a (Z.lxor k t) = true -> capk (flip A t a) k = true)) l).
     { clear -IHl Hw Ht Hk. induction IHl as [|a r Ha Hr IH]; [constructor|]. inversion Hw; subst.
       constructor; [apply Ha; assumption|apply IH; assumption]. }
     assert (Wm : Forall wf (map (flip A t) l)).
     { clear -El. induction El as [|a r [Ha _] Hr IH]; cbn [map]; constructor; assumption. }
     assert (Em : Forall (fun a => forall x, peq (apply (flip A t a) (mode_of k) x) (apply a (mode_of (Z.lxor k t)) x)) l).
     { clear -El. induction El as [|a r [_ [Ha _]] Hr IH]; constructor; assumption. }
-    assert (Cm : allcap (map (flip A t) l) k = allcap l (Z.lxor k t)).
-    { clear -El. induction El as [|a r [_ [_ Ha]] Hr IH]; [reflexivity|]. cbn [map allcap forallb]. rewrite Ha. f_equal. exact IH. }
+    assert (Cm : allcap l (Z.lxor k t) = true -> allcap (map (flip A t) l) k = true).
+    { clear -El. induction El as [|a r [_ [_ Ha]] Hr IH]; [reflexivity|]. cbn [map allcap forallb].
+      intros H. apply andb_true_iff in H as [H1 H2]. rewrite (Ha H1). exact (IH H2). }
     pose proof (backwards_xor t k Ht Hk) as Bx. rewrite E0 in Bx. cbn [orb] in Bx.
     cbn [flip]. rewrite E0. destruct (Z.eqb t 3) eqn:E3.
     + destruct (mk_chain_sound k (map (flip A t) l) Hk Wm) as [W S].
@@ -1117,17 +1218,17 @@ Proof.
         destruct (backwards (mode_of k)).
         -- apply map_comp_bwd. exact Em.
         -- apply map_comp_fwd. exact Em.
-      * rewrite capk_mk_chain, capk_Chain. exact Cm.
+      * rewrite capk_Chain. intros Hc. apply capk_mk_chain_ge. exact (Cm Hc).
     + destruct (mk_chain_sound k (rev (map (flip A t) l)) Hk (Forall_rev Wm)) as [W S].
       split; [assumption|]. split.
       * intros x i. rewrite S. rewrite apply_Chain. rewrite Bx. unfold comp.
         destruct (backwards (mode_of k)); cbn [negb].
         -- rewrite comp_bwd_rev. apply map_comp_fwd. exact Em.
         -- rewrite comp_fwd_rev. apply map_comp_bwd. exact Em.
-      * rewrite capk_mk_chain, capk_Chain, allcap_rev. exact Cm.
+      * rewrite capk_Chain. intros Hc. apply capk_mk_chain_ge. rewrite allcap_rev. exact (Cm Hc).
   - (* Adapter *)
     intros o tr IH Hw t k Ht Hk. cbn [wf] in Hw. destruct Hw as [Hwo Htr]. destruct (Z.eqb t 0) eqn:E0.
-    { apply Z.eqb_eq in E0. subst t. rewrite flip_0, Z.lxor_0_r. repeat split; try assumption; try (intros x i; reflexivity). }
+    { apply Z.eqb_eq in E0. subst t. rewrite flip_0, Z.lxor_0_r. repeat split; try assumption; try (intros x i; reflexivity); try (intros Hc; exact Hc). }
     cbn [flip]. rewrite E0.
     assert (Hm : forall x i, apply (Adapter o tr) (mode_of (Z.lxor k t)) x i = apply o (mode_of (Z.lxor (Z.lxor k t) tr)) x i).
     { intros x i. cbn [Model.apply]. rewrite ilog_mode, modeTable_xor by (try apply kvalid_xor; assumption). reflexivity. }
@@ -1136,17 +1237,17 @@ Proof.
       assert (Z.lxor (Z.lxor k t) t = k) as Ek by (rewrite Z.lxor_assoc, Z.lxor_nilpotent, Z.lxor_0_r; reflexivity).
       split; [assumption|]. split.
       * intros x i. rewrite Hm, Ek. reflexivity.
-      * cbn [capk]. rewrite Ek. reflexivity.
+      * cbn [capk]. rewrite Ek. intros Hc; exact Hc.
     + split; [split; [assumption|apply kvalid_xor; assumption]|]. split.
       * intros x i. rewrite Hm. cbn [Model.apply].
         rewrite ilog_mode, modeTable_xor by (try apply kvalid_xor; assumption).
         rewrite lxor_valid_assoc. reflexivity.
-      * cbn [capk]. rewrite lxor_valid_assoc. reflexivity.
+      * cbn [capk]. rewrite lxor_valid_assoc. intros Hc; exact Hc.
   - (* Sandw: _flip_modes is not overridden -> OperatorAdapter *)
     intros b c0 i0 _ _ _ Hw t k Ht Hk. destruct (Z.eqb t 0) eqn:E0.
     { apply Z.eqb_eq in E0. subst t. rewrite flip_0, Z.lxor_0_r.
-      split; [exact Hw|]. split; [intros x i; reflexivity|reflexivity]. }
-    cbn [flip]. rewrite E0. split; [split; assumption|]. split; [|reflexivity].
+      split; [exact Hw|]. split; [intros x i; reflexivity|intros Hc; exact Hc]. }
+    cbn [flip]. rewrite E0. split; [split; assumption|]. split; [|intros Hc; exact Hc].
     intros x i. change (apply (Adapter (Sandw b c0 i0) t) (mode_of k) x i)
       with (apply (Sandw b c0 i0) (modeTable t (ilog (mode_of k))) x i).
     rewrite (ilog_mode k Hk), (modeTable_xor t k Ht Hk). reflexivity.
@@ -1165,7 +1266,7 @@ Lemma kvalid_2 : kvalid 2%Z. Proof. right; right; left; reflexivity. Qed.
 Lemma adjoint_by_flip o : adjoint_prop A o = flip A 1 o -> adjoint_ok o.
 Proof.
   intros E Hw k Hk Hc. rewrite E. destruct (flip_sound o Hw 1%Z k kvalid_1 Hk) as [W [S C]].
-  split; [assumption|]. split; [assumption|]. rewrite C. exact Hc.
+  split; [assumption|]. split; [assumption|]. apply C. exact Hc.
 Qed.
 
 Lemma kadjb_xor1 k : kvalid k -> kadjb (Z.lxor k 1) = kadjb k.
@@ -1199,7 +1300,7 @@ Proof.
     change (adjoint_prop A (Sum l)) with (mk_sum A l').
     split; [assumption|]. split.
     + intros x i. rewrite S, Sl, apply_Sum. reflexivity.
-    + rewrite (capk_mk_sum l' k Hc1). exact Cl.
+    + apply (capk_mk_sum l' k Hc1). exact Cl.
   - intros. apply adjoint_by_flip. reflexivity.
   - intros. apply adjoint_by_flip. reflexivity.
   - intros. apply adjoint_by_flip. reflexivity.
@@ -1337,7 +1438,7 @@ Proof.
     + destruct (scale_sound 0%Z (f * cj f) cheese kvalid_0 Wc) as [Ws _].
       split; [cbn [wf]; repeat split; assumption|]. intros k Hk _ Cc _.
       destruct (scale_sound k (f * cj f) cheese Hk Wc) as [_ S]. split.
-      * cbn [capk]. rewrite capk_scale. exact Cc.
+      * cbn [capk]. apply capk_scale. exact Cc.
       * intros x i. cbn [Model.apply]. rewrite S, (Sem k Hk). reflexivity.
   - (* general bun: (bun.adjoint @ cheese) @ bun *)
     assert (E : (match bun with
@@ -1353,7 +1454,7 @@ Proof.
     destruct (adjoint_sound bun Wb k Hk Cb1) as [_ [Sa Ca]].
     destruct (matmul_sound k (adjoint_prop A bun) cheese Hk Wa Wc) as [_ S1].
     destruct (matmul_sound k _ bun Hk W1 Wb) as [_ S2]. split.
-    + cbn [capk]. rewrite !capk_matmul, Ca, Cc, Cb. reflexivity.
+    + cbn [capk]. apply capk_matmul; [apply capk_matmul; assumption|exact Cb].
     + intros x i. cbn [Model.apply]. rewrite S2, (comp_cons _ _ k x i), !comp_single. unfold sandwich_sem.
       destruct (backwards (mode_of k)) eqn:Bw.
       * apply apply_ext. intros j. rewrite S1, (comp_cons _ _ k x j), Bw, comp_single.
@@ -1384,7 +1485,7 @@ Proof.
     pose proof (proj1 (kadjb_spec k) Hkk) as Hka.
     destruct (Sa k Hk Ha') as [Ca Ea]. destruct (Sb k Hk Hb') as [Cb Eb].
     destruct (mk_sum_sound k _ Hka Wl) as [_ S]. split.
-    + rewrite (capk_mk_sum _ k Hkk). cbn [allcaps forallb fst]. rewrite Ca, Cb. reflexivity.
+    + apply (capk_mk_sum _ k Hkk). cbn [allcaps forallb fst]. rewrite Ca, Cb. reflexivity.
     + intros x i. rewrite S. cbn [sum_sem sg]. rewrite Ea, Eb. ring.
 Qed.
 
@@ -1404,7 +1505,7 @@ Proof.
     intros k Hk Hadv. cbn [advk] in Hadv. apply andb_true_iff in Hadv as [Ha' Hb'].
     destruct (Sa k Hk Ha') as [Ca Ea]. destruct (Sb k Hk Hb') as [Cb Eb].
     destruct (matmul_sound k _ _ Hk Wba Wbb) as [_ S]. split.
-    + rewrite capk_matmul, Ca, Cb. reflexivity.
+    + apply capk_matmul; assumption.
     + intros x i. rewrite S, (comp_cons _ _ k x i), !comp_single. cbn [sem].
       destruct (backwards (mode_of k)).
       * rewrite <- Eb. apply apply_ext. apply Ea.
@@ -1412,12 +1513,12 @@ Proof.
   - (* EScale *) destruct (IHa Hw) as [Wba Sa]. cbn [build].
     split; [apply (scale_sound 0%Z c _ kvalid_0 Wba)|].
     intros k Hk Hadv. cbn [advk] in Hadv. destruct (Sa k Hk Hadv) as [Ca Ea].
-    destruct (scale_sound k c _ Hk Wba) as [_ S]. split; [rewrite capk_scale; exact Ca|].
+    destruct (scale_sound k c _ Hk Wba) as [_ S]. split; [apply capk_scale; exact Ca|].
     intros x i. rewrite S, Ea. reflexivity.
   - (* ENeg *) destruct (IHa Hw) as [Wba Sa]. cbn [build].
     split; [apply (negate_sound_all 0%Z _ kvalid_0 Wba)|].
     intros k Hk Hadv. cbn [advk] in Hadv. destruct (Sa k Hk Hadv) as [Ca Ea].
-    destruct (negate_sound_all k _ Hk Wba) as [_ S]. split; [unfold negate; rewrite capk_scale; exact Ca|].
+    destruct (negate_sound_all k _ Hk Wba) as [_ S]. split; [unfold negate; apply capk_scale; exact Ca|].
     intros x i. rewrite S, Ea. reflexivity.
   - (* EAdj *) destruct (IHa Hw) as [Wba Sa]. cbn [build].
     pose proof (adjoint_wf _ Wba) as W.
@@ -1431,7 +1532,7 @@ Proof.
     split; [apply (flip_sound _ Wba 2%Z 0%Z kvalid_2 kvalid_0)|].
     intros k Hk Hadv. cbn [advk] in Hadv.
     destruct (Sa (Z.lxor k 2) (kvalid_xor _ _ Hk kvalid_2) Hadv) as [Ca Ea].
-    destruct (flip_sound _ Wba 2%Z k kvalid_2 Hk) as [_ [S C]]. split; [rewrite C; exact Ca|].
+    destruct (flip_sound _ Wba 2%Z k kvalid_2 Hk) as [_ [S C]]. split; [apply C; exact Ca|].
     intros x i. rewrite S, Ea. reflexivity.
   - (* ESandwich *) destruct Hw as [Wb [Wc Hns]].
     destruct (IHb Wb) as [Wbb Sb]. destruct (IHc Wc) as [Wbc Sc]. cbn [build].
@@ -1502,7 +1603,7 @@ Qed.
 Lemma flip_sound_full o t : wf o -> kvalid t ->
   wf (flip A t o) /\
   forall k, kvalid k ->
-    Z.testbit (cap A (flip A t o)) k = Z.testbit (cap A o) (Z.lxor k t) /\
+    (Z.testbit (cap A o) (Z.lxor k t) = true -> Z.testbit (cap A (flip A t o)) k = true) /\
     forall x i, apply (flip A t o) (mode_of k) x i = apply o (mode_of (Z.lxor k t)) x i.
 Proof.
   intros Hw Ht. destruct (flip_sound o Hw t 0%Z Ht kvalid_0) as [W _]. split; [exact W|].
@@ -1520,14 +1621,18 @@ Qed.
 
 Lemma mk_chain_sound_full l : Forall wf l ->
   wf (mk_chain A l) /\ forall k, kvalid k ->
-    Z.testbit (cap A (mk_chain A l)) k = forallb (fun a => Z.testbit (cap A a) k) l /\
+    (forallb (fun a => Z.testbit (cap A a) k) l = true -> Z.testbit (cap A (mk_chain A l)) k = true) /\
+    (existsb (is_null A) (unpack_chain A l) = false ->
+     Z.testbit (cap A (mk_chain A l)) k = forallb (fun a => Z.testbit (cap A a) k) l) /\
     forall x i, apply (mk_chain A l) (mode_of k) x i = comp l k x i.
 Proof.
   intros Hw. destruct (mk_chain_sound 0%Z l kvalid_0 Hw) as [W _]. split; [exact W|].
-  intros k Hk. destruct (mk_chain_sound k l Hk Hw) as [_ S]. split; [|exact S].
-  destruct (capk_spec _ W) as [_ B]. rewrite (B k Hk), capk_mk_chain. unfold allcap.
-  clear -Hw Hk. induction Hw as [|a t Ha Ht IH]; [reflexivity|]. cbn [forallb]. rewrite IH.
-  destruct (capk_spec _ Ha) as [_ Ba]. rewrite (Ba k Hk). reflexivity.
+  intros k Hk. destruct (mk_chain_sound k l Hk Hw) as [_ S].
+  destruct (capk_spec _ W) as [_ B]. rewrite (B k Hk).
+  assert (E : forallb (fun a => Z.testbit (cap A a) k) l = allcap l k).
+  { unfold allcap. clear -Hw Hk. induction Hw as [|a t Ha Ht IH]; [reflexivity|]. cbn [forallb]. rewrite IH.
+    destruct (capk_spec _ Ha) as [_ Ba]. rewrite (Ba k Hk). reflexivity. }
+  rewrite E. split; [apply capk_mk_chain_ge|]. split; [apply capk_mk_chain_eq|exact S].
 Qed.
 
 End Alg.
